@@ -426,7 +426,7 @@ func cmdCheck(args []string) int {
 					continue
 				}
 			}
-			if len(f.r.StaleClauses) > 0 && contractKinds[f.o.Kind] {
+			if len(f.r.StaleClauses) > 0 {
 				// a written loop invariant of this function names a local that no longer exists (renamed or removed): the
 				// annotation has to follow the rename before anything can be concluded from the failing proof
 				claimed--
